@@ -118,6 +118,29 @@ func path2Values(c *Ctx, v ssa.Value, depth int) []ssa.Value {
 		return []ssa.Value{v}
 	}
 	switch x := v.(type) {
+	case *ssa.Extract:
+		// a result of a helper of the same packages: what the helper returns
+		if cl, ok := x.Tuple.(*ssa.Call); ok {
+			if g := core.StaticCallee(cl); g != nil && g.Blocks != nil && (c.P.InPkg(g, "lib/action", "lib/cli") || c.P.IsControl(g)) {
+				var out []ssa.Value
+				for _, rv := range core.ReturnedValues(g, x.Index) {
+					out = append(out, path2Values(c, rv, depth+1)...)
+				}
+				if len(out) > 0 {
+					return out
+				}
+			}
+		}
+	case *ssa.Call:
+		if g := core.StaticCallee(x); g != nil && g.Blocks != nil && (c.P.InPkg(g, "lib/action", "lib/cli") || c.P.IsControl(g)) && g.Signature.Results().Len() == 1 {
+			var out []ssa.Value
+			for _, rv := range core.ReturnedValues(g, 0) {
+				out = append(out, path2Values(c, rv, depth+1)...)
+			}
+			if len(out) > 0 {
+				return out
+			}
+		}
 	case *ssa.Parameter:
 		// a parameter of a helper with static callers only: the callers' arguments
 		fn := x.Parent()
